@@ -12,38 +12,38 @@ import (
 
 // envMatcher is an arbitrary matcher: the JSONMatcher / YAMLMatcher interface
 // is the environment boundary, so a matcher is "some bytes and some errors".
-type envMatcher struct {
+type vxEnvMatcher struct {
 	out  []byte
 	errs []match.MatcherError
 	got  string // the document this matcher was handed
 	ran  bool
 }
 
-func (m *envMatcher) JSON(b []byte) ([]byte, []match.MatcherError) {
+func (m *vxEnvMatcher) JSON(b []byte) ([]byte, []match.MatcherError) {
 	m.got, m.ran = string(b), true
 	if m.out == nil {
 		return b, m.errs
 	}
 	return m.out, m.errs
 }
-func (m *envMatcher) YAML(b []byte) ([]byte, []match.MatcherError) { return m.JSON(b) }
+func (m *vxEnvMatcher) YAML(b []byte) ([]byte, []match.MatcherError) { return m.JSON(b) }
 
-var errEnv = errors.New("reason-x")
+var vxErrEnv = errors.New("reason-x")
 
-func symMatcher(k int) *envMatcher {
-	m := &envMatcher{}
+func vxSymMatcher(k int) *vxEnvMatcher {
+	m := &vxEnvMatcher{}
 	nerr := vxrt.Choice("matcher-errors", 3)
 	names := []string{"Any", "Type", "Custom"}
 	for e := 0; e < nerr; e++ {
-		path := "p" + itoa(k) + "." + itoa(e)
+		path := "p" + vxItoa(k) + "." + vxItoa(e)
 		if k == 0 && e == 0 {
 			// paths are arbitrary text (gjson queries contain %, quotes, ...)
 			path += vxrt.Text("path-suffix", vxrt.Len("path-suffix-len", 0, 1))
 		}
-		m.errs = append(m.errs, match.MatcherError{Reason: errEnv, Matcher: names[(k+e)%3] + "M" + itoa(k), Path: path})
+		m.errs = append(m.errs, match.MatcherError{Reason: vxErrEnv, Matcher: names[(k+e)%3] + "M" + vxItoa(k), Path: path})
 	}
 	if vxrt.Bool("matcher-rewrites") {
-		m.out = []byte(`{"m":` + itoa(k) + `}`)
+		m.out = []byte(`{"m":` + vxItoa(k) + `}`)
 	}
 	return m
 }
@@ -59,28 +59,28 @@ func H_C17_matcher_errors() {
 	dir := vxrt.Dir()
 	opt := vxrt.Choice("update-option", 3)
 	api := vxrt.Choice("api", 3) // MatchJSON, MatchYAML, MatchStandaloneJSON
-	c := cfgWithOpt(dir, opt)
+	c := vxCfgWithOpt(dir, opt)
 	nm := vxrt.Len("matchers", 1, vxrt.Param("matchers", 2))
-	ms := make([]*envMatcher, nm)
+	ms := make([]*vxEnvMatcher, nm)
 	total := 0
 	for k := range ms {
-		ms[k] = symMatcher(k)
+		ms[k] = vxSymMatcher(k)
 		total += len(ms[k].errs)
 	}
 	vxrt.Assume(total > 0)
 	state := vxrt.Choice("entry-state", 2) // missing or present
 	if state == 1 {
 		if api < 2 {
-			writeFile(dir+"/f.snap", frame("TestM - 1", `{"a":1}`))
+			vxWriteFile(dir+"/f.snap", vxFrame("TestM - 1", `{"a":1}`))
 		} else {
-			writeFile(dir+"/f_1.snap.json", `{"a":1}`)
+			vxWriteFile(dir+"/f_1.snap.json", `{"a":1}`)
 		}
 	}
 	stamp := vxrt.FSStamp()
-	before := dumpDir(dir)
-	forceInit()
+	before := vxDumpDir(dir)
+	vxForceInit()
 	failedBefore := testEvents.items[erred]
-	t := newT("TestM")
+	t := vxNewT("TestM")
 	doc := `{"a":1}`
 	switch api {
 	case 0:
@@ -104,7 +104,7 @@ func H_C17_matcher_errors() {
 	}
 	vxrt.Assert(len(t.errors) == 1 && len(t.logs) == 0, "C17:exactly-one-failure")
 	vxrt.Assert(testEvents.items[erred] == failedBefore+1, "C17:failure-is-counted-once")
-	vxrt.Assert(vxrt.FSStamp() == stamp && vxrt.Eq(dumpDir(dir), before), "C17:nothing-written")
+	vxrt.Assert(vxrt.FSStamp() == stamp && vxrt.Eq(vxDumpDir(dir), before), "C17:nothing-written")
 	msg, _ := t.errors[0].(string)
 	named := true
 	for k := range ms {
@@ -151,26 +151,40 @@ func H_C17_real() {
 	switch vxrt.Choice("matcher", 3) {
 	case 0:
 		name = "Any"
-		m = match.Any(path).ErrOnMissingPath(!tolerant)
+		if vxrt.Bool("setters-as-statements") {
+			// the setters configure the matcher they are called on (the README chains them, but
+			// nothing says they must be chained)
+			am := match.Any(path)
+			am.ErrOnMissingPath(!tolerant)
+			m = am
+		} else {
+			m = match.Any(path).ErrOnMissingPath(!tolerant)
+		}
 		expectErr = path == "missing" && !tolerant
 	case 1:
 		name = "Type"
-		m = match.Type[string](path).ErrOnMissingPath(!tolerant)
+		if vxrt.Bool("setters-as-statements") {
+			tm := match.Type[string](path)
+			tm.ErrOnMissingPath(!tolerant)
+			m = tm
+		} else {
+			m = match.Type[string](path).ErrOnMissingPath(!tolerant)
+		}
 		expectErr = path == "missing" && !tolerant || path == "v" && v != `"x"`
 	default:
 		name = "Custom"
 		fail := vxrt.Bool("callback-fails")
 		m = match.Custom(path, func(val any) (any, error) {
 			if fail {
-				return nil, errEnv
+				return nil, vxErrEnv
 			}
 			return "c", nil
 		}).ErrOnMissingPath(!tolerant)
 		expectErr = path == "missing" && !tolerant || path == "v" && fail
 	}
 	standalone := vxrt.Bool("standalone")
-	empty := dumpDir(dir)
-	t := newT("TestR")
+	empty := vxDumpDir(dir)
+	t := vxNewT("TestR")
 	if standalone {
 		c.MatchStandaloneJSON(t, doc, m, match.Any("s"))
 	} else {
@@ -180,7 +194,7 @@ func H_C17_real() {
 	if expectErr {
 		vxrt.Reach("error")
 		vxrt.Assert(len(t.errors) == 1 && len(t.logs) == 0, "C17:matcher-failure-fails-once")
-		vxrt.Assert(vxrt.Eq(dumpDir(dir), empty), "C17:matcher-failure-writes-nothing")
+		vxrt.Assert(vxrt.Eq(vxDumpDir(dir), empty), "C17:matcher-failure-writes-nothing")
 		msg, _ := t.errors[0].(string)
 		vxrt.Assert(strings.Contains(msg, "match."+name+"(\""+path+"\")"), "C17:failing-matcher-and-path-named")
 		return
@@ -188,9 +202,9 @@ func H_C17_real() {
 	vxrt.Reach("ok")
 	vxrt.Assert(len(t.errors) == 0 && len(t.logs) == 1, "C17:no-failure-comparison-proceeds")
 	// the remaining matcher (Any on s) was applied, and the tolerated missing path left the value alone
-	stored := readFile(dir + "/f.snap")
+	stored := vxReadFile(dir + "/f.snap")
 	if standalone {
-		stored = readFile(dir + "/f_1.snap.json")
+		stored = vxReadFile(dir + "/f_1.snap.json")
 	}
 	vxrt.Assert(strings.Contains(stored, "<Any value>"), "C17:remaining-matchers-applied")
 	if path == "missing" {
